@@ -228,31 +228,47 @@ fn c06_o4_update_keeps_identity() {
     std::mem::forget(w);
 }
 
-// @verif prop=C07,C06 obl=O4 tier=thorough bounds="one page-backed tracked struct last updated before `now`; symbolic stored generation < u32::MAX, field values, creator stamp; arbitrary INV runtime state"
-// @+ encodes="tracked_struct::IngredientImpl::<VTr>::delete_entity, IngredientImpl::clear_memos, IngredientImpl::allocate (free-list branch), crossbeam SegQueue push/pop, Id::next_generation, MemoTable::new, MemoTable::reset"
-/// C07-O4: a struct that its creator no longer creates is discarded (write-locked, memos cleared, slot put on the free list);
-/// the next allocation recycles the slot under generation + 1 with fresh field values, revisions and an empty memo table,
-/// so nothing keyed by the old id can match the new one.
+// @verif prop=C06,C07 obl=O4 tier=thorough bounds="one page-backed tracked struct last updated before `now`; symbolic stored generation, field values; arbitrary INV runtime state"
+// @+ encodes="tracked_struct::IngredientImpl::<VTr>::delete_entity, IngredientImpl::clear_memos, MemoTableWithTypesMut::take_memos, MemoTable::reset, crossbeam SegQueue::push"
+/// C06-O4: a struct that its creator no longer creates is discarded: it is write-locked (no longer readable) and its
+/// memo table is cleared.
 #[kani::proof]
 #[kani::unwind(5)]
 #[kani::stub(real_catch_unwind, stub_catch_unwind)]
-fn c07_o4_delete_then_recycle() {
+fn c06_o4_delete_discards() {
     let old: (u32, u32) = (kani::any(), kani::any());
-    let new: (u32, u32) = (kani::any(), kani::any());
-    let mut w = world(old, Some(1), any_durability(), 1);
+    let w = world(old, Some(1), any_durability(), 1);
     kani::assume(w.now > 1);
     let up: usize = kani::any();
     kani::assume(1 <= up && up < w.now);
-    let generation: u32 = kani::any();
-    kani::assume(generation != u32::MAX);
     {
         // SAFETY: single-threaded.
         let v = unsafe { &mut *IngredientImpl::<VTr>::data_raw(w.zalsa.table(), w.id) };
         v.updated_at = OptionalAtomicRevision::new(Some(Revision::from(up)));
     }
-    let id = w.id.with_generation(generation);
+    let id = w.id.with_generation(kani::any());
     w.ing.delete_entity(&w.zalsa, id);
     assert!(peek(&w).updated_at.load().is_none(), "C06: a discarded struct is still readable");
+    assert!(!w.ing.free_list.is_empty(), "C06: a discarded slot was not made available for reuse");
+    kani::cover!(up + 1 < w.now);
+    std::mem::forget(w);
+}
+
+// @verif prop=C07,C06 obl=O4 tier=thorough bounds="one page-backed, already discarded tracked struct whose id (symbolic generation < u32::MAX) is on the free list; symbolic new field values and creator stamp"
+// @+ encodes="tracked_struct::IngredientImpl::<VTr>::allocate (free-list branch), crossbeam SegQueue push/pop, Id::next_generation, MemoTable::new"
+/// C07-O4: the next allocation recycles a discarded slot under generation + 1 with fresh field values, revisions and an
+/// empty memo table, so nothing keyed by the old id can match the new one.
+#[kani::proof]
+#[kani::unwind(5)]
+#[kani::stub(real_catch_unwind, stub_catch_unwind)]
+fn c07_o4_recycle_bumps_generation() {
+    let old: (u32, u32) = (kani::any(), kani::any());
+    let new: (u32, u32) = (kani::any(), kani::any());
+    let w = world(old, None, any_durability(), 1);
+    let generation: u32 = kani::any();
+    kani::assume(generation != u32::MAX);
+    let id = w.id.with_generation(generation);
+    w.ing.free_list.push(id);
     let local = ZalsaLocal::new();
     let d_new = any_durability();
     let changed_at: usize = kani::any();
